@@ -22,7 +22,10 @@ PROP = dict(
                        "seen_not_requested",
                        "no_two_nonseed_same_url"]),
     ],
-    partial="The canonical string is taken as the identity of a URL (its computation is C09's; key_deterministic is monitored, not proved). "
+    partial="Seencheck enabled = what the operator asked for: every case takes its configuration from operator flags (--disable-seencheck, --disable-local-dedupe, "
+            "--disable-assets-capture, --warc-on-disk, --capture-alternate-pages, --disable-rate-limit; local and HQ mode) through viper, the Config struct tags and the real "
+            "GenerateCrawlConfig; the monitors judge by the flag --disable-seencheck alone. "
+            "The canonical string is taken as the identity of a URL (its computation is C09's; key_deterministic is monitored, not proved). "
             "The crawl HQ service is not part of the repository: C08_hq_seen_after_record is about a reference HQ (a set of texts), the per-call "
             "theorems hold for every answer. Concurrent checks that WRITE the same URL are outside the property (a record completed before a check started must be honoured: covered by the parallel leg seenconc, whose concurrent trees share only URLs they read).",
     assumptions=["fnv64a is injective on the canonical strings in play (needed by C08_seen_only_if_recorded only; checked on every generated case)",
@@ -32,5 +35,5 @@ PROP = dict(
     level_text="Theorems for every key function, every initial store and every history of tree-level operations (direct seencheck, preprocess, close/re-open) over one "
                "persistent store, by induction over the concatenated work list; every item tree and every node position; every HQ answer. Model tied to the real "
                "seencheck.Start/SeencheckItem/Close on a scratch LevelDB, to the real preprocess function and to the real hq.SeencheckItem + gocrawlhq client against a "
-               "scripted fake HQ, on histories with overlapping URLs in many spellings.",
+               "scripted fake HQ, on histories with overlapping URLs in many spellings, including one seed's life pass after pass (Completed inner nodes with fetched children, later nodes bringing their URLs back).",
 )
